@@ -362,6 +362,9 @@ def check(an: Analysis) -> None:
     if not (len(sv) == 1 and is_name(sv[0], sinit.param_names()[1])):
         ob.fail(sinit, None, "StateContext does not keep the scope state it was given")
 
+    # ------------------------------------------------------------------ C01.9-11 the state variable is restored on every exit path
+    _borrowed(an)
+
     # ------------------------------------------------------------------ C01.8 public plumbing
     ob = an.ob("C01.8", "K5", "ctx.state / ctx.updated / ctx.scope forward state, default, *state and disposables to the parameters of the same meaning", ["context.access.ctx.state", "context.access.ctx.updated", "context.access.ctx.scope"])
     f = prog.fn("context.access.ctx.state")
@@ -415,6 +418,20 @@ def check(an: Analysis) -> None:
             ob.fail(scinit, None, f"ScopeContext.{attr} does not hold the `{param}` it was given")
         else:
             ob.inst(scinit, vv[0], attr)
+
+
+def _borrowed(an: Analysis) -> None:
+    from ..engine import borrow
+
+    borrow(
+        an,
+        c02.check,
+        {"C02.1": "C01.9", "C02.2": "C01.10", "C02.3": "C01.11"},
+        keep=lambda f: "StateContext" in f.at or "state exit" in f.message or "_token" in f.construct or "StateContext" in f.message,
+    )
+    from . import c08
+
+    borrow(an, c08.check, {"C08.7": "C01.12", "C08.8": "C01.13"})
 
 
 def _is_type_of(e: ast.AST | None, name: str) -> bool:
